@@ -14,6 +14,7 @@ import Driver.Ops.Ts
 import Driver.Ops.Cfg
 import Driver.Ops.Group
 import Driver.Ops.Fdef
+import Driver.Ops.ReportText
 /-! Line-protocol driver of the model: one JSON case per input line, one JSON answer per line.
     To add an op: write `Driver/Ops/<Name>.lean`, import it here, add one line to `opTable`
     (or to `outputTable` for a new output kind of op `run`). -/
@@ -31,7 +32,9 @@ def outputTable : List (String × Ops.OutputFn) := [
   ("probe", Ops.outProbe),
   ("balgrp", Ops.outBalGrp),
   ("identity", Ops.outIdentity),
-  ("roundtrip", Ops.outRoundtrip)
+  ("roundtrip", Ops.outRoundtrip),
+  ("regtxt", Ops.outRegisterTxt),
+  ("balgrptxt", Ops.outBalGrpTxt)
 ]
 
 /-- ops -/
